@@ -104,6 +104,10 @@ class ServerBox(object):
                     pass
 
 
+MARKED = [{"__jsonclass__": ["datetime.date", [2020, 1, 2]]}, {"__jsonclass__": "just text"}, [1, {"k": {"__jsonclass__": ["decimal.Decimal", ["1.5"]]}}],
+          {"__jsonclass__": ["no.such.Cls", []], "x": 1}, {"a": [{"__jsonclass__": []}]}, {"__jsonclass__": None}]
+
+
 def resolve(p, name):
     m = p
     for part in name.split("."):
@@ -128,6 +132,16 @@ def run_case(c, box, rnd, counter):
             args, kwargs = [], {rnd.choice(["a", "b_c", "é", "x1"]): value(c["argc"], rnd), "second": value(rnd.choice(["int", "emptystr", "null"]), rnd)}
         else:
             args, kwargs = [value(c["argc"], rnd)] + [value(rnd.choice(["int", "unicode", "emptylist", "null", "zero"]), rnd) for _ in range(rnd.randint(0, 2))], {}
+        if not c["jc"] and rnd.random() < 0.5:
+            # class translation off on both sides: a '__jsonclass__' member is ordinary data
+            which = rnd.choice(["ret", "arg", "both"])
+            if which in ("ret", "both"):
+                ret = rnd.choice(MARKED)
+            if which in ("arg", "both") and style != "noargs":
+                if kw:
+                    kwargs["second"] = rnd.choice(MARKED)
+                else:
+                    args = args + [rnd.choice(MARKED)]
         box.register(name, ret)
         jobs.append({"name": name, "kw": kw, "notify": notify, "args": args, "kwargs": kwargs, "ret": ret})
     with box.lock:
